@@ -517,6 +517,20 @@ def Q(x):
     return 0.5*sp.erfc(x/2**0.5) 
 
 
+def _soft_ser(d, s0, s1, M):
+    r"""Symbol error probability of soft-decision ``M``-PPM: the probability that one of the ``M-1`` OFF slots exceeds the ON slot,
+    for levels ``d`` apart and standard deviations ``s0`` (OFF) and ``s1`` (ON).
+
+    The complement :math:`1-(1-Q)^{M-1}` is integrated directly (no subtraction from one), on a finite interval (the Gaussian weight
+    is zero in double precision beyond :math:`|x|=39`) that is split at the knee :math:`x=-d/s_1` of the integrand, whose width
+    :math:`s_0/s_1` the quadrature does not find by itself.
+    """
+    from scipy.integrate import quad
+    knee = np.clip(-d/s1 + s0/s1*np.array([-10, -1, 0, 1, 10]), -40, 40)
+    with np.errstate(divide='ignore', invalid='ignore'): # log1p(-1) = -inf where an OFF slot is certain to exceed the ON slot
+        return quad(lambda x: -np.expm1((M-1)*np.log1p(-Q((d+s1*x)/s0)))*np.exp(-x**2/2), -40, 40, points=knee, epsabs=0)[0]/(2*pi)**0.5
+
+
 def phase(H: np.ndarray):
     r"""
     Calculate the unwrapped phase of a frequency response.
@@ -1319,7 +1333,7 @@ def theory_BER(
                     SER = np.nanmin(SER(np.linspace(mu_OFF, mu_ON, 5000)))
     
             elif decision.lower()=='soft':
-                SER = 1-1/(2*pi)**0.5*quad(lambda x: (1-Q((mu_ON-mu_OFF+s[1]*x)/s[0]))**(M-1)*np.exp(-x**2/2),-np.inf,np.inf)[0]
+                SER = _soft_ser(mu_ON-mu_OFF, s[0], s[1], M)
     
             else:
                 raise ValueError('decision must be "hard" or "soft"')
